@@ -217,8 +217,33 @@ pub fn check_garbage(data: &[u8], cap: usize, ctx: &mut Ctx) -> Result<(), Failu
     Ok(())
 }
 
+/// a well-formed zstd frame whose content is a tiny malformed container: WrapperDecompressZip
+/// may panic internally, which must be reported as a status and must not affect later calls
+fn damaged_container_frame(dna: &mut Dna) -> Option<Vec<u8>> {
+    // Only tiny hand-made containers whose outcome is quick and known (an internal panic mapped
+    // to -2, or a clean error). Arbitrarily damaged containers are NOT used: they are outside the
+    // property (decompress input is compress output) and the reconstruction of a damaged
+    // container can run away (observed: an endless block loop that allocated 60 GB).
+    let e: Vec<u8> = match dna.below(4) {
+        0 => vec![1, 1, 0, 0],
+        1 => vec![1, 2, 0, 0x78, 0x9c, 0, 0, 0, 0, 0, 0],
+        2 => vec![1, 0, 0x80],
+        _ => vec![2, 0, 0],
+    };
+    zstd::bulk::compress(&e, 3).ok()
+}
+
 fn eval_dna(dna_bytes: &[u8], ctx: &mut Ctx) -> Result<(), (Failure, Value)> {
     let mut dna = Dna::new(dna_bytes);
+    if dna.chance(12) {
+        let cap = dna.range(0, 6000);
+        if let Some(frame) = damaged_container_frame(&mut dna) {
+            let doc = json!({"kind":"c12-garbage","hex":hex(&frame),"cap":cap,"what":"zstd frame of a damaged container"});
+            ctx.set_inflight(&doc);
+            ctx.class("decompress-input:frame-of-damaged-container");
+            return check_garbage(&frame, cap, ctx).map_err(|f| (f, doc));
+        }
+    }
     if dna.chance(15) {
         let n = dna.range(0, 300);
         let cap = dna.range(0, 5000);
